@@ -396,22 +396,59 @@ func advMessage(t *rapid.T) ([]byte, []string) {
 	return msg, cl
 }
 
+// ednsMessage crafts a well-formed RESPONSE (QR set, any RCODE, the question echoed,
+// a few address records) whose additional section ends in an OPT record carrying
+// EDNS options of any code - extended errors (15), cookies, NSID, padding, private
+// codes - with payloads of 0..3 and a few longer lengths; the option lengths are
+// honest, so the message decodes and the resolver gets to look at the options.
+func ednsMessage(t *rapid.T) []byte {
+	msg := make([]byte, 12)
+	msg[2] = 0x81                                                                                   // QR, RD
+	msg[3] = 0x80 | byte(rapid.SampledFrom([]int{0, 0, 1, 2, 3, 4, 5, 6, 9}).Draw(t, "edns_rcode")) // RA + RCODE
+	qt := rapid.SampledFrom([]int{1, 28, 65}).Draw(t, "edns_qtype")
+	binary.BigEndian.PutUint16(msg[4:], 1)
+	msg = append(msg, 7, 'e', 'x', 'a', 'm', 'p', 'l', 'e', 3, 'c', 'o', 'm', 0, 0, byte(qt), 0, 1)
+	nans := rapid.IntRange(0, 2).Draw(t, "edns_nans")
+	for i := 0; i < nans; i++ {
+		msg = append(msg, 0xc0, 12, 0, 1, 0, 1, 0, 0, 0, 60, 0, 4, 192, 0, 2, byte(i+1))
+	}
+	binary.BigEndian.PutUint16(msg[6:], uint16(nans))
+	var opts []byte
+	for i, n := 0, rapid.IntRange(0, 4).Draw(t, "edns_nopts"); i < n; i++ {
+		code := rapid.SampledFrom([]int{15, 15, 15, 3, 8, 10, 11, 12, 14, 65001, 0}).Draw(t, "edns_code")
+		l := rapid.SampledFrom([]int{0, 1, 2, 3, 4, 8, 24, 40}).Draw(t, "edns_optlen")
+		d := hello.GenBytes(t, "edns_optdata", l)
+		opts = append(opts, byte(code>>8), byte(code), byte(l>>8), byte(l))
+		opts = append(opts, d...)
+	}
+	ext := byte(rapid.SampledFrom([]int{0, 0, 1, 2, 255}).Draw(t, "edns_ext_rcode"))
+	msg = append(msg, 0, 0, 41, 4, 208, ext, 0, 0, 0, byte(len(opts)>>8), byte(len(opts)))
+	msg = append(msg, opts...)
+	binary.BigEndian.PutUint16(msg[10:], 1)
+	return msg
+}
+
 func TestC12(t *testing.T) {
 	rec := ev.Get("C12")
 	rec.Rule("inputs: (a) crafted messages whose names are chains of fragments linked by compression pointers (backward chains up to 24 deep, cycles, self pointers, forward pointers, arbitrary offsets) referenced from question, owner names and the RDATA of NS/CNAME/PTR/MX/SOA/SRV/SVCB/HTTPS/RRSIG/NSEC records; (a2) responses whose last record is an HTTPS/SVCB record with an arbitrary SvcParams block (any keys, repeats, value lengths around 0/1/2/4/16 and their multiples, lying inner lengths) ending exactly at the end of the message; (b) valid messages (C13 generators, both codecs) with adversarial edits: a name replaced by a pointer to any offset, count fields rewritten, 16-bit fields overwritten (lying RDLENGTH), truncation; every tenth decoded message is served as the DoH body to a Resolver. Oracle: the decoder gets a buffer of exactly the message's size and, for comparison, the same bytes inside a larger junk-filled buffer (identical outcome required); returns within the watchdog, no panic, allocations <= 1 MiB + 2 KiB per input byte, decoded names bounded, RR data has the Go type its record type implies, Resolve/Targets do not panic. distinct = input hash; non-trivial = input holds a compression pointer or a count/length that disagrees with the data")
-	rec.Mandatory("cycle", "chain_ge16", "forward_pointer", "lying_count", "decoded_ok", "resolver_driven", "edited_valid", "crafted_svcparams")
+	rec.Mandatory("cycle", "chain_ge16", "forward_pointer", "lying_count", "decoded_ok", "resolver_driven", "edited_valid", "crafted_svcparams", "crafted_edns_response")
 	thorough := os.Getenv("VERIF_TIER") == "thorough"
 	rapid.Check(t, func(t *rapid.T) {
 		var b []byte
 		var cl []string
 		nontrivial := true
-		switch rapid.IntRange(0, 3).Draw(t, "source") {
+		forceResolve := false
+		switch rapid.IntRange(0, 4).Draw(t, "source") {
 		case 0:
 			b, cl = advMessage(t)
 			cl = append(cl, "crafted")
 		case 3:
 			b = svcParamMessage(t)
 			cl = append(cl, "crafted_svcparams")
+		case 4:
+			b = ednsMessage(t)
+			cl = append(cl, "crafted_edns_response")
+			forceResolve = true
 		default:
 			if rapid.Bool().Draw(t, "own_encoder") {
 				b = dnsfx.GenMessage(t, "m").Bytes()
@@ -477,7 +514,7 @@ func TestC12(t *testing.T) {
 		}
 		if m != nil {
 			cl = append(cl, "decoded_ok")
-			if thorough || rapid.IntRange(0, 9).Draw(t, "resolve") == 0 {
+			if thorough || forceResolve || rapid.IntRange(0, 9).Draw(t, "resolve") == 0 {
 				if v := c12Resolve(b); v != "" {
 					ev.Violation(t, "C12", map[string]any{"bytes": hx(b), "stage": "resolver"}, "%s", v)
 				}
